@@ -195,6 +195,7 @@ fn parse_pattern_nosubst<L: Language>(
             })
             .collect();
         let node = L::from_syntax(&syntax_elems_mock)
+            .filter(|node: &L| node.to_syntax().len() == syntax_elems_mock.len())
             .ok_or_else(|| ParseError::FromSyntaxFailed(syntax_elems_mock))?;
         let syntax_elems = syntax_elems
             .into_iter()
